@@ -140,9 +140,11 @@ func (w *workload) run(rt *rapid.T, c *vk.Case) {
 				// hold the durability round at this fsync until some other committer made progress (a new tx got
 				// precommitted) or a bound expires: on correct code nothing can be precommitted meanwhile and the bound expires
 				if k == fsim.Sync && (strings.HasPrefix(log, "val_") || (perturb == "any-sync-wait" && (log == "tx" || log == "commit"))) {
-					p0 := st.LastPrecommittedTxID()
+					// progress is observed through the recorder (number of recorded operations), never through the
+					// store: this hook runs inside sync(), which holds the commit-state lock
+					p0 := w.fs.Len()
 					deadline := time.Now().Add(2 * delay)
-					for st.LastPrecommittedTxID() == p0 && time.Now().Before(deadline) {
+					for w.fs.Len() == p0 && time.Now().Before(deadline) {
 						time.Sleep(50 * time.Microsecond)
 					}
 				}
